@@ -127,7 +127,8 @@ def _body(kind, has_lo, lo, has_hi, hi, inc_lo, inc_hi, an, v, is_none, probe, c
             assume(_inb(v, has_lo, lo, inc_lo, has_hi, hi, inc_hi))
             val = v
         T = param.Integer if name == 'Integer' else param.Number
-        decl = lambda: T(default=val, bounds=bounds, inclusive_bounds=(inc_lo, inc_hi), allow_None=an)
+        stp = [None, 5, 2][pick(cfg, 0, 2)]      # `step` is a UI hint: every in-bounds value stays a valid state
+        decl = lambda: T(default=val, bounds=bounds, inclusive_bounds=(inc_lo, inc_hi), allow_None=an, step=stp)
     elif name == 'Range':
         if not is_none:
             assume(_inb(v, has_lo, lo, inc_lo, has_hi, hi, inc_hi))
@@ -222,6 +223,26 @@ def prog_f(kind: int, has_lo: bool, lo: float, has_hi: bool, hi: float, inc_lo: 
     _body(kind, has_lo, lo, has_hi, hi, inc_lo, inc_hi, an, v, is_none, probe, cfg, pi)
 
 
+def adopt(decl_dict: bool, pi: int, an: bool) -> None:
+    """check_on_set=False: a value outside the declared objects is adopted (added to the objects); the state stays valid."""
+    an = pickbool(an)
+    objs = [1, 'a']
+    extra = [3, 'zz', 2.5][pick(pi, 0, 2)]
+    with untraced():
+        class P(param.Parameterized):
+            x = param.Selector(objects=({'one': 1, 'two': 'a'} if decl_dict else list(objs)), check_on_set=False, allow_None=an)
+        p = P()
+    p.x = extra
+    info = {'kind': 'Selector check_on_set=False', 'allow_None': an, 'is_none': False, 'dict_declared': decl_dict}
+    sch = p.param.schema()['x']
+    check('C16.wellformed', wellformed(sch), dict(info, schema=repr(sch)))
+    ser = jsonify(p.param.x.serialize(p.x))
+    check('C16.valid_state_validates', validates(sch, ser), dict(info, schema=repr(sch), ser=repr(ser)))
+
+
+adopt.ranges = lambda consts: dict(pi=(0, 2))
+
+
 def inst_i(typ: int, has_lo: bool, lo: int, has_hi: bool, hi: int, inc_lo: bool, inc_hi: bool, v: int, probe: int) -> None:
     """Per-instance Parameter objects: bounds edited on the instance govern both the state and the instance's schema."""
     has_lo, has_hi, inc_lo, inc_hi = (pickbool(x) for x in (has_lo, has_hi, inc_lo, inc_hi))
@@ -261,6 +282,8 @@ def shards(tier):
             if KINDS[kind] not in ('Integer', 'Number', 'Range'):
                 c.update(has_lo=False, lo=0, has_hi=False, hi=0, probe=0)
             out.append(dict(name='%s_an%d_i' % (KINDS[kind], an), module='harness.c16', fn='prog_i', consts=c, budget_s=60 if q else 300))
+    for dd in (False, True):
+        out.append(dict(name='adopt_%d' % dd, module='harness.c16', fn='adopt', consts=dict(decl_dict=dd), budget_s=60 if q else 300))
     for typ in (0, 1):
         out.append(dict(name='inst_%d' % typ, module='harness.c16', fn='inst_i', consts=dict(typ=typ), budget_s=60 if q else 300))
     for kind in (1, 2):
